@@ -42,6 +42,31 @@ def all_cases(layouts: int = 1):
     return out
 
 
+def odd_cases():
+    """Every listed keyword that is unusual as text -- a title keyword with a blank at its edge ('Rule ' in en-tx), a step keyword without a trailing space, keywords with
+    apostrophes, hyphens, exclamation marks, digits or non-BMP characters -- as a document, as default dialect and via header (a compact subset of all_cases for every check)."""
+    import unicodedata
+    langs = master_dialects()
+    out = []
+    n = 0
+    for d in sorted(langs):
+        D = langs[d]
+        for role in TITLE + STEP:
+            for k, kw in enumerate(D[role]):
+                if kw == "* ":
+                    continue
+                core = kw[:-1] if role in STEP and kw.endswith(" ") else kw
+                odd = (role in TITLE and kw != kw.strip()) or (role in STEP and not kw.endswith(" ")) or core != core.strip() or any(ord(c) > 0xFFFF for c in kw) or \
+                    any(not (c.isalnum() or c == " " or unicodedata.category(c).startswith("M")) for c in core)
+                if not odd:
+                    continue
+                body = doc_for(D, role, kw, INDENTS[n % len(INDENTS)], PADS[n % len(PADS)])
+                out.append((f"oddkw:{d}:{role}:{k}:default", body, d))
+                out.append((f"oddkw:{d}:{role}:{k}:header", f"# language: {d}\n" + body, "en"))
+                n += 1
+    return out
+
+
 def foreign_cases(seed: int, n: int):
     """Keywords of another dialect written where a keyword could stand."""
     langs = master_dialects()
